@@ -211,16 +211,17 @@ func writeListOrArray(e *Encoder, d *decodeState, ifWriteTag bool, tagName strin
 		if d.opcode != scanListValue && d.opcode != scanEndValue { // TAG_List<TAG_String>
 			panic(phasePanicMsg)
 		}
-		var tagType byte
+		tagType = TagList
+		var elemType byte
 		for {
 			t, v, err := parseLiteral(literal)
 			if err != nil {
 				return tagType, err
 			}
-			if tagType == 0 {
-				tagType = t
+			if elemType == 0 {
+				elemType = t
 			}
-			if t != tagType {
+			if t != elemType {
 				return TagList, d.error("different TagType in List")
 			}
 			err = writeLiteralPayload(e2, v)
@@ -250,13 +251,14 @@ func writeListOrArray(e *Encoder, d *decodeState, ifWriteTag bool, tagName strin
 			literal = d.data[start:d.readIndex()]
 		}
 
-		if err := e.writeListHeader(tagType, count); err != nil {
+		if err := e.writeListHeader(elemType, count); err != nil {
 			return tagType, err
 		}
 		if _, err := e.w.Write(buf.Bytes()); err != nil {
 			return tagType, err
 		}
 	case scanBeginList: // TAG_List<TAG_List>
+		tagType = TagList
 		if ifWriteTag {
 			err = writeTag(e.w, TagList, tagName)
 			if err != nil {
@@ -300,6 +302,7 @@ func writeListOrArray(e *Encoder, d *decodeState, ifWriteTag bool, tagName strin
 			return
 		}
 	case scanBeginCompound: // TAG_List<TAG_Compound>
+		tagType = TagList
 		if ifWriteTag {
 			err = writeTag(e.w, TagList, tagName)
 			if err != nil {
